@@ -127,15 +127,15 @@ func (r *renderer) typeDecl(t *TypeDecl) {
 	t.File = r.f
 	switch {
 	case t.AliasOf != nil:
-		t.Start = r.emit("%s%s = %s%s%s", prefix, t.Name, r.ref(t.AliasOf), tag(t.ID), r.trail(&t.Node))
+		t.Start = r.emit("%s%s = %s%s%s", prefix, t.Name, r.ref(t.AliasOf), r.trail(&t.Node), tag(t.ID))
 		t.End = t.Start
 	case t.Kind == KStruct:
 		if len(t.Fields) == 0 {
-			t.Start = r.emit("%s%s struct{}%s%s", prefix, t.Name, tag(t.ID), r.trail(&t.Node))
+			t.Start = r.emit("%s%s struct{}%s%s", prefix, t.Name, r.trail(&t.Node), tag(t.ID))
 			t.End = t.Start
 			break
 		}
-		t.Start = r.emit("%s%s struct {%s%s", prefix, t.Name, tag(t.ID), r.trail(&t.Node))
+		t.Start = r.emit("%s%s struct {%s%s", prefix, t.Name, r.trail(&t.Node), tag(t.ID))
 		r.indent++
 		for _, f := range t.Fields {
 			for _, d := range f.Doc {
@@ -157,21 +157,21 @@ func (r *renderer) typeDecl(t *TypeDecl) {
 		r.indent--
 		t.End = r.emit("}%s", r.trailLast(&t.Node))
 	case t.Kind == KInt:
-		t.Start = r.emit("%s%s int%s%s", prefix, t.Name, tag(t.ID), r.trail(&t.Node))
+		t.Start = r.emit("%s%s int%s%s", prefix, t.Name, r.trail(&t.Node), tag(t.ID))
 		t.End = t.Start
 	case t.Kind == KSlice:
-		t.Start = r.emit("%s%s []int%s%s", prefix, t.Name, tag(t.ID), r.trail(&t.Node))
+		t.Start = r.emit("%s%s []int%s%s", prefix, t.Name, r.trail(&t.Node), tag(t.ID))
 		t.End = t.Start
 	case t.Kind == KMap:
-		t.Start = r.emit("%s%s map[string]int%s%s", prefix, t.Name, tag(t.ID), r.trail(&t.Node))
+		t.Start = r.emit("%s%s map[string]int%s%s", prefix, t.Name, r.trail(&t.Node), tag(t.ID))
 		t.End = t.Start
 	case t.Kind == KIface:
 		if len(t.IfaceMethods) == 0 {
-			t.Start = r.emit("%s%s interface{}%s%s", prefix, t.Name, tag(t.ID), r.trail(&t.Node))
+			t.Start = r.emit("%s%s interface{}%s%s", prefix, t.Name, r.trail(&t.Node), tag(t.ID))
 			t.End = t.Start
 			break
 		}
-		t.Start = r.emit("%s%s interface {%s%s", prefix, t.Name, tag(t.ID), r.trail(&t.Node))
+		t.Start = r.emit("%s%s interface {%s%s", prefix, t.Name, r.trail(&t.Node), tag(t.ID))
 		r.indent++
 		for _, m := range t.IfaceMethods {
 			r.emit("%s", m)
@@ -248,9 +248,9 @@ func (r *renderer) funcDecl(f *FuncDecl) {
 		return " ("
 	}
 	if len(f.Params) == 0 {
-		f.Start = r.emit("%s%s%s%s", head, closeParams(), tag(f.ID), r.trail(&f.Node))
+		f.Start = r.emit("%s%s%s%s", head, closeParams(), r.trail(&f.Node), tag(f.ID))
 	} else {
-		f.Start = r.emit("%s%s%s", head, tag(f.ID), r.trail(&f.Node))
+		f.Start = r.emit("%s%s%s", head, r.trail(&f.Node), tag(f.ID))
 		r.indent++
 		for _, p := range f.Params {
 			r.emit("%s %s,%s", r.vname(p), r.varType(p), tag(p.ID))
@@ -289,6 +289,12 @@ func (r *renderer) varDecl(v *VarDecl) {
 	}
 	if v.Site != nil {
 		v.Site.Grouped = v.Grouped
+		// comments attached to the declaration node belong on its only line
+		if v.Trailing != "" {
+			v.Site.Trailing = v.Trailing
+		} else if v.TrailingLast != "" {
+			v.Site.Trailing = v.TrailingLast
+		}
 		r.site(v.Site)
 		v.Start, v.End = v.Site.Start, v.Site.End
 	} else if v.Closure != nil {
@@ -296,9 +302,9 @@ func (r *renderer) varDecl(v *VarDecl) {
 			prefix = "var "
 		}
 		if len(v.Closure.Params) == 0 {
-			v.Start = r.emit("%s%s = func() bool {%s%s", prefix, v.Name, tag(v.ID), r.trail(&v.Node))
+			v.Start = r.emit("%s%s = func() bool {%s%s", prefix, v.Name, r.trail(&v.Node), tag(v.ID))
 		} else {
-			v.Start = r.emit("%s%s = func(%s%s", prefix, v.Name, tag(v.ID), r.trail(&v.Node))
+			v.Start = r.emit("%s%s = func(%s%s", prefix, v.Name, r.trail(&v.Node), tag(v.ID))
 			r.indent++
 			for _, p := range v.Closure.Params {
 				r.emit("%s %s,%s", r.vname(p), r.varType(p), tag(p.ID))
@@ -411,7 +417,7 @@ func (r *renderer) site(s *Site) {
 	if s.LocalVar != nil {
 		s.Local = s.LocalVar.Name
 	}
-	t := tag(s.ID) + r.trail(&s.Node)
+	t := r.trail(&s.Node) + tag(s.ID)
 	var text string
 	var after []string
 	o := ""
